@@ -545,13 +545,30 @@ impl Stream {
         
         // Get entries after the specified ID
         let data = self.data.lock().unwrap();
-        let entries = if after_id == StreamId::max() {
-            // Special case: ">" means only new entries
-            let last_delivered = group.get_last_id();
-            data.range_after(&last_delivered, count).entries
-        } else {
-            data.range_after(&after_id, count).entries
-        };
+        if after_id != StreamId::max() {
+            // An explicit ID re-reads what is already pending for this consumer; nothing new is delivered
+            let mut ids: Vec<StreamId> = group
+                .get_pending_range(None, None, usize::MAX, Some(consumer_name))
+                .into_iter()
+                .map(|p| p.id)
+                .filter(|id| *id > after_id)
+                .collect();
+            ids.sort();
+            ids.truncate(count.unwrap_or(usize::MAX));
+            let history = ids
+                .iter()
+                .filter_map(|id| {
+                    data.entries.binary_search_by(|e| e.id.cmp(id))
+                        .ok()
+                        .map(|idx| data.entries[idx].clone())
+                })
+                .collect();
+            return Ok(history);
+        }
+        
+        // ">" means only new entries
+        let last_delivered = group.get_last_id();
+        let entries = data.range_after(&last_delivered, count).entries;
         
         drop(data);
         
@@ -561,10 +578,8 @@ impl Stream {
             Ok(pending_entries)
         } else {
             // NOACK deliveries are not pending but still advance the group
-            if after_id == StreamId::max() {
-                if let Some(last) = entries.last() {
-                    group.set_id(last.id);
-                }
+            if let Some(last) = entries.last() {
+                group.set_id(last.id);
             }
             Ok(entries)
         }
